@@ -27,7 +27,7 @@ RULE = ("(a) DiffractionPatterns built directly: sizes 1-33 per axis (odd/even/r
         "centre of mass, or a field with a non-zero component; distinct = distinct case signature")
 CLAUSES = ["com-frequency", "com-angle", "com-single-pixel", "com-unshifted", "com-pipeline", "com-result-type",
            "gradient-integral"]
-QUICK = dict(n=700, time=40)
+QUICK = dict(n=600, time=40)
 THOROUGH = dict(n=20000, time=240, shards=16)
 ASSUMPTIONS = ["centre of mass is judged on unit-total patterns only: for other totals abTEM returns the first moment, not divided "
                "by the total, and the statement's mean is not defined by it",
@@ -63,7 +63,10 @@ def gen(rng, tier):
             if (c[0], c[1]) not in seen:
                 seen.add((c[0], c[1]))
                 uniq.append(c)
-        return {"kind": "pipeline", "gpts": [nx, ny], "extent": [float(rng.uniform(4, 30)), float(rng.uniform(4, 30))],
+        # real-space sampling with an anisotropy of at most 2 (the antialias cutoff then keeps >= 1 pixel per axis)
+        sx = float(rng.uniform(0.1, 0.8))
+        sy = sx if rng.random() < 0.3 else float(sx * rng.uniform(0.5, 2.0))
+        return {"kind": "pipeline", "gpts": [nx, ny], "extent": [nx * sx, ny * sy],
                 "energy": float(rng.choice([60e3, 100e3, 200e3, 300e3])), "comps": uniq,
                 "fftshift": bool(rng.random() < 0.5), "max_angle": str(rng.choice(["full", "float", "cutoff"])),
                 "parity": str(rng.choice(["same", "odd", "even"])), "lazy": bool(rng.random() < 0.25),
@@ -216,7 +219,7 @@ def check_gradient(ctx, case):
         return
     got = T - T.mean((-2, -1), keepdims=True)
     want = phi - phi.mean((-2, -1), keepdims=True)
-    rtol = 2e-4 if case["dtype"] == "complex64" else 1e-9
+    rtol = 2e-5 if case["dtype"] == "complex64" else 1e-10
     ctx.close(got, want, "gradient-integral", rtol=rtol, atol=1e-30, scale=max(float(np.abs(phi).max()), 1e-12),
               gpts=[nx, ny], dtype=case["dtype"])
     ctx.nontrivial(any((c[0], c[1]) != (0, 0) for c in case["comps"]))
